@@ -232,7 +232,20 @@ def add_profile_tweaks(profile_dir):
 FACTORS = ['0.9', '1.1', '0.5', '2', 'min', 'max', '1.0123457']
 
 
+# Parameters that are never moved.  With the demand column number at 1 (given as `1`, or as `1.8`, which the reader truncates) the
+# district-heating plant reads the HOUR INDEX of the demand file as its hourly demand: an int64 array of 8760 elements that
+# `jsons.dumps` then crawls object by object for many minutes (a request that validates and whose run time is out of all five
+# properties' scope).  The choices are drawn as for any other parameter and the tweak is dropped afterwards, so every other
+# history decodes exactly as before.
+NEVER_MOVED = {'District Heating Demand Data Column Number'}
+
+
 def neighbour_tweak(cs, template, ranges):
+    tw = _neighbour_tweak(cs, template, ranges)
+    return None if tw and tw[0] in NEVER_MOVED else tw
+
+
+def _neighbour_tweak(cs, template, ranges):
     """one parameter of the template moved: scaled, put on the edge of its declared range, or - one time in three - an
     integer-valued parameter (these drive table lengths, column widths and option switches) put on an edge of its
     allowable range whether or not the template mentions it"""
